@@ -93,11 +93,20 @@ type model struct {
 	h []*mHandle
 }
 
+// get returns the open handle that a command naming handle i addresses. Commands carry
+// protocol ids: the id of a closed handle may legitimately have been handed out again, in
+// which case the command addresses the open handle that owns the id now.
 func (m *model) get(i int) *mHandle {
-	if i < 0 || i >= len(m.h) || !m.h[i].open {
+	if i < 0 || i >= len(m.h) {
 		return nil
 	}
-	return m.h[i]
+	id := m.h[i].id
+	for _, h := range m.h {
+		if h.open && h.id == id {
+			return h
+		}
+	}
+	return nil
 }
 
 func (m *model) idOf(i int) uint32 {
@@ -359,7 +368,9 @@ func replay(hist []event) xstate.Result {
 			}
 		case "X", "Y", "M":
 			tpl := 0
-			if e.H >= 0 && e.H < len(m.h) {
+			if mh != nil {
+				tpl = mh.tpl
+			} else if e.H >= 0 && e.H < len(m.h) {
 				tpl = m.h[e.H].tpl
 			}
 			n := templates[tpl].n
@@ -496,7 +507,8 @@ func replay(hist []event) xstate.Result {
 
 	// Canonical state. The future of these commands depends, in the implementation, only on
 	// the session's statement table (id -> template, bound args, parameter types) and the id
-	// counter (= number of prepares so far, ids are never reused); in the model, on the
+	// counter (read through an accessor and part of the key, like the ids of the open handles:
+	// an implementation may hand ids out in any order); in the model, on the
 	// per-handle long-data buffers and open flags. The backend, the session variables and the
 	// transaction state are not touched by any event (autocommit single statements; the
 	// backend connection is returned after each). Handles are named by preparation order, so
@@ -509,6 +521,11 @@ func replay(hist []event) xstate.Result {
 		// could absorb an identical-looking state reached by other means, and a different
 		// defect would be reported under the known signature
 		p := fmt.Sprintf("h%d:T%d:open=%v:dirty=%v", k, h.tpl, h.open, h.open && h.dirty)
+		if h.open {
+			// the protocol id is part of the state: which id a later PREPARE may collide with
+			// depends on it (ids need not follow preparation order)
+			p += fmt.Sprintf(":id=%d", h.id)
+		}
 		if h.open {
 			open[h.id] = true
 			for _, l := range h.long {
@@ -527,7 +544,7 @@ func replay(hist []event) xstate.Result {
 		}
 	}
 	sort.Strings(stray)
-	key := strings.Join(parts, ";") + "|stray=" + strings.Join(stray, ",")
+	key := strings.Join(parts, ";") + "|stray=" + strings.Join(stray, ",") + fmt.Sprintf("|next=%d", server.VerifStmtCounter(s.SE))
 	if rig.Backend.Leaked() != 0 {
 		return xstate.Result{Violation: "backend connection not returned", Features: map[string]string{"kind": "conn_leak", "stale_source": "none", "event": "-"}}
 	}
@@ -610,7 +627,54 @@ func main() {
 			event{K: "M", H: -1, M: "trunc_bitmap"})
 		return out
 	}
+	// Second search, "handle lifecycle" (added after seeded change c16-4 was missed): more
+	// statements (<= lcPrepares prepares) and deeper, with a reduced per-handle alphabet
+	// (execute with value set 0, long data for parameter 0, close), so that closing ANY of
+	// several open statements — not only the latest — is followed by several prepares. Same
+	// replay, same oracle: every id returned by PREPARE is distinct from the ids of all open
+	// handles; an execute runs its own handle's text with its own values; a close affects
+	// that handle only (the others still execute, the closed one does not).
+	lcDepth := r.Pick(6, 8)
+	lcPrepares := r.Pick(4, 5)
+	lcEnabled := func(hist []event) []event {
+		np := 0
+		closed := map[int]bool{}
+		for _, e := range hist {
+			if e.K == "P" {
+				np++
+			}
+			if e.K == "C" {
+				closed[e.H] = true
+			}
+		}
+		var out []event
+		if np < lcPrepares {
+			out = append(out, event{K: "P", H: np, P: 0}, event{K: "P", H: np, P: 1})
+		}
+		for h := 0; h < np; h++ {
+			out = append(out, event{K: "X", H: h, V: 0})
+			if !closed[h] {
+				out = append(out, event{K: "L", H: h, P: 0}, event{K: "C", H: h})
+			}
+		}
+		return out
+	}
 	outcomes := map[string]int{}
+	lc := xstate.BFS(xstate.Spec[event]{
+		Replay:   replay,
+		Enabled:  lcEnabled,
+		MaxDepth: lcDepth,
+		Workers:  16,
+		Stop:     r.TimeUp,
+		OnViolation: func(h []event, res xstate.Result) {
+			res.Features["search"] = "lifecycle"
+			r.Violation(ev.Witness{Summary: res.Violation, Features: res.Features, Case: h})
+		},
+		OnOutcome: func(o string) {
+			outcomes[o]++
+			r.Distinct("outcomes", o)
+		},
+	})
 	st := xstate.BFS(xstate.Spec[event]{
 		Replay:   replay,
 		Enabled:  enabled,
@@ -629,6 +693,7 @@ func main() {
 	for _, h := range [][]event{
 		{{K: "P", H: 0, P: 1}, {K: "L", H: 0, P: 0}, {K: "X", H: 0, V: 0}, {K: "X", H: 0, V: 1}},
 		{{K: "P", H: 0, P: 0}, {K: "P", H: 1, P: 1}, {K: "X", H: 1, V: 1}, {K: "C", H: 0}, {K: "X", H: 0, V: 0}},
+		{{K: "P", H: 0, P: 0}, {K: "P", H: 1, P: 1}, {K: "C", H: 0}, {K: "P", H: 2, P: 1}, {K: "P", H: 3, P: 0}, {K: "X", H: 1, V: 0}},
 	} {
 		res := replay(h)
 		b, _ := json.Marshal(h)
@@ -637,15 +702,21 @@ func main() {
 	if st.Capped {
 		r.Capped(fmt.Sprintf("BFS stopped by the time budget inside depth %d; all histories up to depth %d were explored", st.MaxDepth, st.MaxDepth-1))
 	}
-	r.Set("states", st.States)
-	r.Set("transitions", st.Transitions)
-	r.Set("traces_validated_against_impl", st.Transitions)
+	if lc.Capped {
+		r.Capped(fmt.Sprintf("lifecycle BFS stopped by the time budget inside depth %d", lc.MaxDepth))
+	}
+	r.Set("states", st.States+lc.States)
+	r.Set("transitions", st.Transitions+lc.Transitions)
+	r.Set("traces_validated_against_impl", st.Transitions+lc.Transitions)
+	r.Set("main_search", map[string]interface{}{"states": st.States, "transitions": st.Transitions, "frontier_per_depth": st.PerDepth})
+	r.Set("lifecycle_search", map[string]interface{}{"states": lc.States, "transitions": lc.Transitions, "frontier_per_depth": lc.PerDepth,
+		"depth_bound": lcDepth, "max_prepares": lcPrepares, "violating_histories": lc.Violations})
 	r.Set("max_depth", st.MaxDepth)
 	r.Set("depth_bound", maxDepth)
 	r.Set("frontier_per_depth", st.PerDepth)
 	r.Set("violating_histories", st.Violations)
 	r.Set("outcome_counts", outcomes)
-	r.Set("bound", fmt.Sprintf("BFS to depth %d; <=%d prepares (templates with 1 and 2 parameters); per handle: execute with types x 2 value sets (strings / LONGLONG), execute without types (new-params-bound=0, enabled once types are remembered) x 2 value sets, send_long_data x 2 parameters, %d malformed-execute variants, reset, close; the same commands on closed handles and on a never-allocated id", maxDepth, maxPrepares, nMal))
+	r.Set("bound", fmt.Sprintf("BFS to depth %d; <=%d prepares (templates with 1 and 2 parameters); per handle: execute with types x 2 value sets (strings / LONGLONG), execute without types (new-params-bound=0, enabled once types are remembered) x 2 value sets, send_long_data x 2 parameters, %d malformed-execute variants, reset, close; the same commands on closed handles and on a never-allocated id. Handle-lifecycle search: BFS to depth %d; <=%d prepares; per handle: execute (value set 0, also on closed handles), send_long_data(parameter 0), close", maxDepth, maxPrepares, nMal, lcDepth, lcPrepares))
 	r.Set("explanation", "states = distinct canonical states (model long-data buffers + open flags, implementation statement table with bound args and parameter types); transitions = histories replayed step by step on a fresh real SessionExecutor, each step compared with the reference model (SQL text at the fake backend, error/no error); violating histories are not extended")
 	if st.States < 10 || r.DistinctN("outcomes") < 6 {
 		ev.Fatalf("vacuous run: states=%d outcomes=%d", st.States, r.DistinctN("outcomes"))
